@@ -136,11 +136,46 @@ def escape_case(L):
         return (pmap.h64(s), v, dict(judged=1))
     return case, n ** L
 
+# heading titles: the reserved/escape alphabet plus what is markup inside a heading line
+TRES = [x for x in RES if x not in (b"\n", b"&#10;")] + [b"#", b" #", b"##", b"\\#", b"*", b"`", b"=", b"-", b"[x]", b":", b"C#"]
+def title_case(L):
+    n = len(TRES); shapes = 4; styles = 5
+    def case(idx):
+        st = idx % styles; idx //= styles; sh = idx % shapes; idx //= shapes
+        parts = []
+        for _ in range(L): parts.append(TRES[idx % n]); idx //= n
+        x = b"".join(parts)
+        title = (b"Ta" + x + b"b", b"Ta " + x + b" b", b"Ta" + x, b"Ta " + x)[sh]
+        if st == 0: h = b"# " + title + b"\n"
+        elif st == 1: h = b"# " + title + b" #\n"
+        elif st == 2: h = b"# " + title + b" ###\n"
+        elif st == 3: h = title + b"\n======\n"
+        else: h = b"# First\n\ntext\n\n## " + title + b" ##\n"
+        if st == 3 and (re.match(rb"^\S+:", title) or title.rstrip().endswith(b"|")): return (None, [], dict(skipped=1))
+        src = h + b"\nbody line\n"
+        case_d = dict(src=src.decode("latin-1")); v = []
+        opml = mmd.convert(src, mmd.EXT_DEFAULT, 9)
+        try: parse_opml(opml)
+        except expat.ExpatError as e:
+            return (pmap.h64(src), [("opml:not-well-formed", "OPML export does not parse: %s" % e, case_d)], dict(judged=1))
+        back = mmd.opml_to_text(opml)
+        if back is None:
+            v.append(("opml:import-failed", "import of the exported OPML returned nothing", case_d))
+        else:
+            f = mmd.EXT_DEFAULT | mmd.EXT["SNIPPET"]
+            ws = lambda h: re.sub(rb"[ \t]+(</h\d>)", rb"\1", h)        # trailing blanks inside a heading element are not content
+            h1 = ws(mmd.convert(src, f, 0)); h2 = ws(mmd.convert(back, f, 0))
+            if h1 != h2:
+                sigx = ":title-ending-in-backslash" if title.rstrip().endswith(b"\\") else ""
+                v.append(("opml:roundtrip-html-differs:heading-title" + sigx, "html of the re-imported document differs: %r vs %r; re-imported text %r" % (h2[:200], h1[:200], back), dict(case_d, reimported=back.decode("latin-1"))))
+        return (pmap.h64(src), v, dict(judged=1))
+    return case, n ** L * shapes * styles
+
 def run(tier):
     rep = core.Report("C14", tier, "exploration")
     rep.rule = ("all properly nested heading-level sequences up to the level's length x heading style {ATX, closed ATX, Setext} x section bodies (empty, text, every XML-reserved and whitespace character, lists, code, literal entities, multi-byte) "
                 "x preamble {no,yes} x metadata {0,1,2 keys}; oracles: the OPML parses (expat), outline titles in order, each _note equals the source text between the headings byte for byte, "
-                "html -f of import(export(src)) == html -f of src; plus every string of length <= L over the reserved/escape alphabet as a body: note exact and re-import exact; distinct = distinct sources")
+                "html -f of import(export(src)) == html -f of src; plus every string of length <= L over the reserved/escape alphabet as a body: note exact and re-import exact; and inside / at the end of a heading title in 5 heading spellings: round trip renders identically; distinct = distinct sources")
     rep.assumptions = ["headings are properly nested and metadata values single-line (the statement's precondition)"]
     mmd.so_path(); dl = core.deadline_s(tier)
     cl = cases_list(tier)
@@ -150,6 +185,10 @@ def run(tier):
         case, n = escape_case(L)
         res = pmap.pmap(n, case, deadline_s=dl * 0.9)
         pmap.fold(rep, "escape-inverse-len%d" % L, n, res, "every body string of length %d over the reserved/escape alphabet: export exact, import exact" % L)
+    for L in ((1,) if tier == "quick" else (1, 2)):
+        case, n = title_case(L)
+        res = pmap.pmap(n, case, deadline_s=dl * 0.9)
+        pmap.fold(rep, "heading-title-len%d" % L, n, res, "every string of length %d over the reserved/heading-markup alphabet inside and at the end of a heading title x 5 heading spellings: html of import(export) == html of the source" % L)
     src, pieces, pn = build(METAS[2], PRE[1], [(1, "atx", 2), (2, "setext", 4)])
     rep.add_sample(dict(src=src.decode("latin-1"), expected_notes=[n.decode("latin-1") for _, n, _ in pieces]))
     return rep.finish()
